@@ -839,6 +839,9 @@ func newEngine(repo string) *Engine {
 
 // findFunction resolves a contract to its ssa.Function.
 func (e *Engine) findFunction(c *Contract) *ssa.Function {
+	if c.SweepFn != nil {
+		return c.SweepFn
+	}
 	sp := e.ssaPkgs[c.Pkg]
 	if sp == nil {
 		return nil
